@@ -322,10 +322,20 @@ def points(spec, rng, n):
 
 
 # ---------------------------------------------------------------------------------------- @Data tables
-def random_data_spec(rng, idx, digits="short"):
+# every documented spelling of the options of @Data (docs/mfront/MaterialLaw/Data.md, SingleVariableInterpolatedData::extract);
+# None = option absent (defaults: linear interpolation, extrapolation)
+DATA_INTERPOLATIONS = ("linear", "cubic_spline", None)
+DATA_EXTRAPOLATIONS = (True, False, "bound_to_last_value", "constant", None)
+DATA_COMBINATIONS = tuple((i, e) for i in DATA_INTERPOLATIONS for e in DATA_EXTRAPOLATIONS)
+
+
+def random_data_spec(rng, idx, digits="short", interp="random", extra="random", has_in=None, nodes=None):
+    """interp / extra: a member of DATA_INTERPOLATIONS / DATA_EXTRAPOLATIONS, or "random";
+    has_in / nodes: force a table with an input / its number of nodes"""
     nd = (lambda: rng.randint(2, 5)) if digits == "short" else (lambda: rng.randint(8, 12))
-    has_in = rng.random() < 0.85
-    n = rng.choice((1, 2, 2, 3, 4, 5, 8)) if has_in else 1
+    if has_in is None:
+        has_in = rng.random() < 0.85
+    n = (nodes or rng.choice((1, 2, 2, 3, 4, 5, 8))) if has_in else 1
     lo, hi = rng.choice(((250.0, 2500.0), (0.0, 1.0), (-10.0, 10.0), (1e-2, 1e2)))
     # abscissae on distinct cells of a 40-cell grid: the spacing stays >= 1 % of the range (well-conditioned spline)
     cells = sorted(rng.sample(range(40), n))
@@ -338,8 +348,9 @@ def random_data_spec(rng, idx, digits="short"):
         xs = [numtext(0.5 * (lo + hi), 4)[0]]
     mag = rng.choice((1.0, 1e-3, 1e9, 50.0))
     ys = [numtext(rng.uniform(-1, 2) * mag, nd())[0] for _ in xs]
-    interp = rng.choice(("linear", "cubic_spline", None))
-    extra = rng.choice((True, False, "constant", "bound_to_last_value", None))
+    ri, re_ = rng.choice(DATA_INTERPOLATIONS), rng.choice(DATA_EXTRAPOLATIONS)      # always drawn: the stream does not depend on the arguments
+    interp = ri if interp == "random" else interp
+    extra = re_ if extra == "random" else extra
     name = rng.choice(INPUT_NAMES)
     spec = {"kind": "data", "idx": idx, "law": "VfTab%d" % idx, "material": rng.choice(("", "VfMat")),
             "inputs": [{"name": name, "type": "real", "box": (lo, hi), "ext": rng.choice((None, ("glossary", "Temperature")))}] if has_in else [],
@@ -424,15 +435,17 @@ def data_scale(spec):
 
 
 def data_points(spec, rng, n):
+    """the nodes, one ulp around each node, points strictly outside the table on both sides (near: 1e-6, 1 %, 30 % of the
+    width; far: 2 and 50 widths) -- always kept --, then random points in and around the table"""
     if not spec["inputs"]:
         return [[] for _ in range(min(n, 3))]
     x = [float(v) for v in spec["data"]["x"]]
     w = (x[-1] - x[0]) or max(1.0, abs(x[0]))
-    pts = [[v] for v in x] + [[x[0] - 0.3 * w], [x[-1] + 0.3 * w], [x[0] - 2 * w], [x[-1] + 2 * w]]
-    pts += [[math.nextafter(v, s)] for v in x for s in (-math.inf, math.inf)]
+    out = [[x[0] - f * w] for f in (1e-6, 0.01, 0.3, 2.0, 50.0)] + [[x[-1] + f * w] for f in (1e-6, 0.01, 0.3, 2.0, 50.0)]
+    pts = out + [[v] for v in x] + [[math.nextafter(v, s)] for v in x for s in (-math.inf, math.inf)]
     while len(pts) < n:
         pts.append([rng.uniform(x[0] - 0.5 * w, x[-1] + 0.5 * w)])
-    return pts[:max(n, len(x) + 4)]
+    return pts
 
 
 # ---------------------------------------------------------------------------------------- pipeline
